@@ -391,6 +391,7 @@ class Check:
         if len(self.violations) < 40:
             os.makedirs(d, exist_ok=True)
             for name, content in files.items():
+                os.makedirs(os.path.dirname(os.path.join(d, name)) or d, exist_ok=True)
                 with open(os.path.join(d, name), 'w') as fh:
                     fh.write(content)
             with open(os.path.join(d, 'info.json'), 'w') as fh:
